@@ -70,7 +70,8 @@ fn cmd_check(args: &[String]) -> i32 {
     let nruns = arg_val(args, "--runs").and_then(|s| s.parse().ok()).unwrap_or_else(|| prop.runs(thorough));
     let workers = arg_val(args, "--workers").and_then(|s| s.parse().ok()).unwrap_or_else(|| std::thread::available_parallelism().map(|n| n.get()).unwrap_or(8).min(16));
     let wall = arg_val(args, "--wall").and_then(|s| s.parse().ok()).unwrap_or_else(|| prop.wall_cap_s(thorough));
-    let known = match load_known(&vdir) {
+    let known_dir = arg_val(args, "--known-dir").unwrap_or_else(|| vdir.clone());
+    let known = match load_known(&known_dir) {
         Ok(k) => k,
         Err(e) => {
             eprintln!("HARNESS-ERROR: {}", e);
